@@ -16,6 +16,7 @@ var All = map[string]func() *corr.Engine{
 	"C13": C13,
 	"C10": C10,
 	"C11": C11,
+	"C12": C12,
 	"C05": C05,
 	"C06": C06,
 }
